@@ -172,13 +172,18 @@ def main():
     unmatched = []
     for mod, entries in ((c05, None), (c19, None), (c26, None), (c27, None)):
         es = mod.entry_points(p)
-        recs, keys, an = panics.inventory(p, es, mod.make_stop(p), {})
+        # same splicing decisions as at check time: helpers named by a `requires` stay calls
+        reqs = []
+        for spec in SPEC:
+            if len(spec) > 3 and spec[3]:
+                reqs += spec[3] if isinstance(spec[3], list) else [spec[3]]
+        recs, keys, an = panics.inventory(p, es, mod.make_stop(p), {"__spec__": {"key": "__spec__", "reason": "", "requires": reqs}})
         for r in recs:
             if r["verdict"] != "open":
                 continue
             hit = None
             for spec in SPEC:
-                if re.search(spec[0], r["func"]) and re.search(spec[1], r["site"]["id"]):
+                if (re.search(spec[0], r["func"]) or (r.get("origin") and re.search(spec[0], r["origin"]))) and re.search(spec[1], r["site"]["id"]):
                     hit = spec
                     break
             if hit:
